@@ -622,9 +622,19 @@ func WindowWhen[T, B any](boundary Observable[B]) func(Observable[T]) Observable
 
 			mu := xsync.MutexWithSpinlock{}
 
+			// set by the final flush (source or boundary terminated): no window may be opened after it
+			closed := false
+
 			flush := func(ctx context.Context, skipNew bool) {
 				// reset Observable even if no notification were sent
 				mu.Lock()
+
+				if closed {
+					// A boundary racing the termination must not open a window that nobody would
+					// ever complete (the output would never terminate downstream of MergeAll).
+					mu.Unlock()
+					return
+				}
 
 				tmp := window
 
@@ -632,6 +642,8 @@ func WindowWhen[T, B any](boundary Observable[B]) func(Observable[T]) Observable
 				if !skipNew {
 					newSubject = NewUnicastSubject[T](UnicastSubjectUnlimitedBufferSize)
 					window = newSubject
+				} else {
+					closed = true
 				}
 
 				mu.Unlock()
